@@ -11,4 +11,6 @@ const (
 	VerifPtCloseDec   = 6 // Snapshot.Close: the decrement reached zero, before moving between the sets
 	VerifPtGCLoop     = 7 // collectDead: top of a loop iteration
 	VerifPtGCEnd      = 8 // GC: collectDead returned, flag not yet reset
+	VerifPtStoreItem  = 9 // StoreToDisk: an item was handed to a shard writer
+	VerifPtStoreStep  = 10 // StoreToDisk: between two file-system mutations after the scan
 )
